@@ -235,11 +235,34 @@ class Disagreement:
         }
 
 
+# facets that are values a call returns or derives, as opposed to parts of the structure's state
+PURE_OUTPUT = {"ret", "payload", "qtype", "trace", "estimate", "cfpr", "setbits"}
+# request kinds that name more than one structure (result and operands / source)
+MULTI_HANDLE = {"union", "inter", "jacc", "join", "load", "loadraw", "reopen", "loadmem", "view", "merge"}
+
+
+def line_handles(line):
+    """handles of the structures a request line reads or writes"""
+    toks = line.split()
+    if len(toks) < 2 or toks[0].startswith(("h.", "sz.")):
+        return set()
+    hs = {toks[1]}
+    if toks[0].split(".", 1)[-1] in MULTI_HANDLE:
+        hs |= {t for t in toks[2:4] if t.isdigit()}
+    return hs
+
+
 def compare_pairs(pairs, replies, accept=None):
-    """first index where a facet differs (and accept(line, facets) holds, when given)
-    -> (index, [facets], real, model) or None.
-    Facets present on only one side are ignored unless the model answered bad-op/bad-handle."""
+    """first disagreement that counts -> (index, [facets], real, model) or None.
+
+    A disagreement counts when accept(line, facets) holds (always, when accept is None) AND it is
+    introduced at that line: once model and implementation disagree about the STATE of a structure at a
+    line the caller does not look at, every later difference on that structure (and on structures derived
+    from it) is a consequence of that earlier step, not evidence about the lines the caller does look at,
+    so it is skipped.  Facets present on only one side are ignored unless the model answered
+    bad-op/bad-handle."""
     diverged = False
+    dirty = set()
     for i, ((line, real), rep) in enumerate(zip(pairs, replies)):
         model = parse_reply(rep)
         if "_raw" in model and model["_raw"] in ("bad-op", "bad-handle"):
@@ -248,11 +271,19 @@ def compare_pairs(pairs, replies, accept=None):
                 # succeeded on one side only): nothing further can be compared in this sequence
                 return None
             raise MachineryError(f"driver rejected request {line!r}: {model['_raw']}")
+        hs = line_handles(line)
+        inherited = bool(hs & dirty)
         diffs = [k for k in real if k in model and real[k] != model[k]]
         if diffs:
             diverged = True
-            if accept is None or accept(line, diffs):
+            if accept is None:
                 return i, diffs, real, model
+            if not inherited and accept(line, diffs):
+                return i, diffs, real, model
+            if inherited or any(k not in PURE_OUTPUT for k in diffs):
+                dirty |= hs
+        elif inherited:
+            dirty |= hs
     return None
 
 
